@@ -342,6 +342,7 @@ class GenerateTemplates(Processor):
                                       template_graph,
                                       self.topology.defines)
 
+                resname = block.nodes[list(block.nodes)[0]]['resname']
                 opt_counter = 0
                 while True:
 
@@ -363,7 +364,6 @@ class GenerateTemplates(Processor):
                         break
                     else:
                         opt_counter += 1
-                resname = block.nodes[list(block.nodes)[0]]['resname']
                 if resname in self.volumes:
                     self.volumes[graph_hash] = self.volumes[resname]
                 else:
